@@ -453,3 +453,21 @@ def check(P: Project, R: Report) -> None:
     if not cf:
         R.ob("R11", "model configuration is limited to entries both backends treat alike", True, base_rel, "", sample=f"R11 keys in use: {sorted({k for m in T.models.values() for k in m.config})}")
 
+    # ------------------------------------------------------------------ R12: unknown members are kept by both backends alike
+    R.rule("R12", "unknown members are treated alike: the Pydantic-side base class sets extra='allow' and every model inherits it; the fallback constructor merges the leftover keys on every path, or — if it reads model_config['extra'] — assumes that same mode for a class that sets none")
+    from .c10 import fallback_extra_obligations
+
+    pyd_extra = None
+    for n in ast.walk(ast.Module(body=split.body, type_ignores=[])):
+        if isinstance(n, ast.Assign) and ast.unparse(n.targets[0]) == "model_config":
+            if isinstance(n.value, ast.Dict):
+                pyd_extra = {k.value: (v.value if isinstance(v, ast.Constant) else None) for k, v in zip(n.value.keys, n.value.values) if isinstance(k, ast.Constant)}.get("extra")
+            elif isinstance(n.value, ast.Call):
+                pyd_extra = {k.arg: (k.value.value if isinstance(k.value, ast.Constant) else None) for k in n.value.keywords}.get("extra")
+            break
+    R.need(pyd_extra is not None, "anchor: the Pydantic-side base class no longer sets `extra`")
+    bfv_ = fb_methods.get("_build_field_values")
+    R.need(bfv_ is not None, "anchor: fallback _build_field_values not found")
+    for label, ok, lineno, detail in fallback_extra_obligations(P, P.module(A.MOD_BASE), bfv_, fb, {"extra": pyd_extra}):
+        R.ob("R12", label, ok, f"{base_rel}:{lineno}", detail)
+
